@@ -193,7 +193,7 @@ pub fn run(cases: u32) -> i32 {
     };
     let mut runner = TestRunner::new_with_rng(cfg, TestRng::from_seed(RngAlgorithm::ChaCha, &[7u8; 32]));
     let strat = gen::disk_strategy(gen::VolBias::default(), true);
-    let tight = gen::disk_strategy(gen::VolBias { tight: true, stale: true, max_depth: 3, ..gen::VolBias::default() }, true);
+    let tight = gen::disk_strategy(gen::VolBias { tight: true, stale: true, max_depth: 3, full_dirs: true, ..gen::VolBias::default() }, true);
     let mut n_ok = 0;
     for i in 0..cases {
         let spec = if i % 2 == 0 { strat.new_tree(&mut runner).unwrap().current() } else { tight.new_tree(&mut runner).unwrap().current() };
